@@ -7,6 +7,10 @@ import (
 	"encoding/json"
 	"errors"
 	"fmt"
+	"github.com/bartventer/httpcache/store/expapi"
+	"net/http"
+	"net/http/httptest"
+	"net/url"
 	"os"
 	"path/filepath"
 	"sort"
@@ -395,7 +399,61 @@ func execC17Query(c c17Case, dir string, r *oracle.Result) (*oracle.Result, stri
 	return r, ""
 }
 
+// execC17API: the maintenance HTTP API on an encrypted cache whose key comes from the
+// environment. A request made while the environment holds another key - or none - never
+// yields the stored value, whatever requests were made before with the right key.
+func execC17API(c c17Case, dir string, r *oracle.Result) (*oracle.Result, string) {
+	right, wrong := aesKey(32, 21), aesKey(32, 22)
+	dsn := "fscache://" + dir + "?appname=app&encrypt=" + c.BadKey
+	mux := http.NewServeMux()
+	expapi.Register(expapi.WithServeMux(mux))
+	api := func(method, key string) (int, []byte) {
+		req := httptest.NewRequest(method, "/debug/httpcache/"+url.PathEscape(key)+"?"+url.Values{"dsn": {dsn}}.Encode(), nil)
+		rec := httptest.NewRecorder()
+		mux.ServeHTTP(rec, req)
+		return rec.Code, rec.Body.Bytes()
+	}
+	defer os.Unsetenv("FSCACHE_ENCRYPT_KEY")
+	os.Setenv("FSCACHE_ENCRYPT_KEY", right)
+	conn, err := store.Open(dsn)
+	if err != nil {
+		return r, "open with the right key failed: " + err.Error()
+	}
+	value := world.ExpandValue(96, 23)
+	const k = "entry-1"
+	if err := conn.Set(k, value); err != nil {
+		return r, "Set failed: " + err.Error()
+	}
+	r.NonTrivial = true
+	r.NTKeys = append(r.NTKeys, "api/"+c.BadKey)
+	if code, body := api("GET", k); code != http.StatusOK || !bytes.Contains(body, value[:16]) {
+		r.Label("api-right-key-unreadable")
+		return r, ""
+	}
+	for _, env := range []string{wrong, "", aesKey(16, 24), right, wrong} {
+		if env == "" {
+			os.Unsetenv("FSCACHE_ENCRYPT_KEY")
+		} else {
+			os.Setenv("FSCACHE_ENCRYPT_KEY", env)
+		}
+		code, body := api("GET", k)
+		r.Evals++
+		if env != right && bytes.Contains(body, value[:16]) {
+			what := "another key"
+			if env == "" {
+				what = "no key at all"
+			}
+			r.Fail("C17", "wrong-key-yields-data:api", -1, "maintenance API, DSN %q: with %s in the environment GET answered %d and returned the stored value", "fscache://...?appname=app&encrypt="+c.BadKey, what, code)
+			return r, ""
+		}
+	}
+	return r, ""
+}
+
 func execC17Config(c c17Case, dir string, r *oracle.Result) (*oracle.Result, string) {
+	if c.KeyTag == "api" {
+		return execC17API(c, dir, r)
+	}
 	if c.KeyTag == "switch" {
 		return execC17Switch(c, dir, r)
 	}
@@ -497,6 +555,11 @@ func TestC17Config(t *testing.T) {
 			"appname=app&encrypt=on&encrypt_key=$KEY&timeout=5s;connect_timeout=1s", "appname=app&encrypt=on&encrypt_key=$KEY", "encrypt=on&appname=app",
 		} {
 			if !yield(mkC17(c17Case{Kind: "config", Path: "dsn-query", BadKey: q, KeyTag: "query"})) {
+				return
+			}
+		}
+		for _, v := range []string{"on", "aesgcm"} {
+			if !yield(mkC17(c17Case{Kind: "config", Path: "api-env", BadKey: v, KeyTag: "api"})) {
 				return
 			}
 		}
